@@ -33,7 +33,7 @@ def enc_queries(pid):
                         bounds={'inputs': '2 x full-width %s' % t}))
     qs.append(Query('enc-f32', enc, 'h_f32', unwind=26, about='all pairs of float bit patterns incl. +-0, +-inf, every NaN', bounds={'inputs': '2 x 32-bit patterns'}))
     qs.append(Query('enc-f64', enc, 'h_f64', unwind=26, about='all pairs of double bit patterns incl. +-0, +-inf, every NaN', bounds={'inputs': '2 x 64-bit patterns'}))
-    for L, tier in ((3, 'quick'), (5, 'thorough'), (6, 'thorough')):
+    for L, tier in ((3, 'quick'), (8, 'quick'), (16, 'quick'), (32, 'thorough'), (64, 'thorough')):
         u = ENC(defines=['TEXTLEN=%d' % L])
         qs.append(Query('enc-text-pair-%d' % L, u, 'h_text_pair', unwind=L + 5, tier=tier,
                         about='all pairs of texts of length <= %d over all 256 byte values, no interior zeros' % L,
